@@ -137,7 +137,17 @@ def _vm_goal(case, out):
                         "l": lambda: "NLink %s" % _vm_str(payload)}[typ]()
                 items.append("(%s, %s)" % (_vm_path(pth), node))
             return "vm_listing (%s)\n   [%s] = true" % (call, ";\n    ".join(items))
-        return "vm_cls (%s) = %d%%nat" % (call, {"ERR outside": 1, "ERR digest": 2, "ERR reject": 4}[out])
+        cls, _, res = out.partition(" RES ")
+        items = []
+        for it in (res.split(",") if res and res != "-" else []):
+            pth, typ, mode, payload = it.split(":")
+            node = {"f": lambda: "NFile %s %d" % (_vm_str(payload), int(mode, 8)),
+                    "d": lambda: "NDir %d" % int(mode, 8),
+                    "l": lambda: "NLink %s" % _vm_str(payload)}[typ]()
+            items.append("(%s, %s)" % (_vm_path(pth), node))
+        pcall = call.replace("extract_p false", "extract_partial false", 1) if ext != "extract" else call.replace("extract", "extract_partial true", 1)
+        return ("(let r := %s in (vm_cls (match snd r with Some x => Err x | None => Ok (fst r) end), vm_listing (Ok (fst r))\n   [%s])) = (%d%%nat, true)"
+                % (pcall, ";\n    ".join(items), {"ERR outside": 1, "ERR digest": 2, "ERR reject": 4}[cls]))
     if k == "P" and out == "EQ":
         ta, j = _vm_tree(toks, 3)
         tb, _ = _vm_tree(toks, j + 1)
